@@ -51,6 +51,7 @@ THEOREMS = [
     "Lena.C18.drop_spec",
     "Lena.C18.drop_restores_first_run",
     "Lena.C18.interrupted_run_keeps_cache_files",
+    "Lena.C18.closed_run_leaves_no_tmp",
     "Lena.C18.step_final_cases",
     "Lena.C18.cache_complete",
     "Lena.C18.later_run_serves_complete_flow",
